@@ -1,13 +1,19 @@
 //! `c03`: run the compile-time parser generation (CTParserBuilder::build —
 //! source generation only, nothing is compiled) for a grammar with its
 //! `%expect` / `%expect-rr` declarations and report whether the build fails.
-//! case:   `<kind> <hexsrc>`
+//! case:   `<kind> <hexsrc> [api=build|pf] [wae=0|1] [eoc=0|1]`
+//!         api=pf goes through the deprecated but public `CTParserBuilder::process_file(&mut self, in, out)`
+//!         (which copies the builder field by field); wae = warnings_are_errors (default 0 here),
+//!         eoc = error_on_conflicts (default 1, the builder's default).  `warn=` in the result is the
+//!         number of grammar warnings (public `ASTWithValidityInfo::ast().warnings()`): with wae=1 a
+//!         build fails on them whatever the conflicts are.
 //! result: `CT <ok|err|panic> sr=<n> rr=<n> expect=<n|-> expectrr=<n|-> conflicts=<some|none> msg=<hex of the start of the error text>`
 //!         or the grammar/table construction error (`GRMERR …` / `TBLERR … # <grammar dump>`) when the grammar does not build at all.
 //! sr/rr are the lengths of StateTable::conflicts() of an independently built
 //! table (public API); expect/expectrr are YaccGrammar::expect()/expectrr().
 //! CTParserBuilder keeps a process-global set of generated paths, so every
 //! case writes to a fresh path under /verif/.work/c03/<pid>/.
+#![allow(deprecated)]
 use gvh::common::*;
 use gvh::util::*;
 use lrpar::CTParserBuilder;
@@ -30,6 +36,18 @@ fn main() {
         let mut hs = head.split_whitespace();
         let kind = hs.next().unwrap().to_string();
         let src = unhex(hs.next().unwrap_or(""));
+        let (mut api_pf, mut wae, mut eoc) = (false, false, true);
+        for o in hs {
+            match o {
+                "api=pf" => api_pf = true,
+                "api=build" => api_pf = false,
+                "wae=1" => wae = true,
+                "wae=0" => wae = false,
+                "eoc=1" => eoc = true,
+                "eoc=0" => eoc = false,
+                _ => return format!("BADOPT {}", o),
+            }
+        }
         let b = match catch(std::panic::AssertUnwindSafe(|| build(&kind, &src))) {
             Err(m) => return format!("BUILDPANIC {}", m.replace('\n', " ")),
             Ok(Err(e)) => {
@@ -53,19 +71,30 @@ fn main() {
         let op = base2.join(format!("g{}.y.rs", n));
         std::fs::write(&yp, &src).expect("write grammar");
         let yk = yacckind(&kind);
+        let nwarn = catch(std::panic::AssertUnwindSafe(|| {
+            cfgrammar::yacc::ast::ASTWithValidityInfo::new(yk, &src).ast().warnings().len()
+        }))
+        .map(|n| n.to_string())
+        .unwrap_or_else(|_| "?".to_string());
         let yp2 = yp.clone();
         let op2 = op.clone();
         let r = catch(std::panic::AssertUnwindSafe(move || {
-            CTParserBuilder::<LT>::new()
+            let b = CTParserBuilder::<LT>::new()
                 .yacckind(yk)
-                .warnings_are_errors(false)
+                .warnings_are_errors(wae)
+                .error_on_conflicts(eoc)
                 .show_warnings(false)
-                .grammar_path(&yp2)
-                .output_path(&op2)
-                .mod_name("gen_y")
-                .build()
-                .map(|_| ())
-                .map_err(|e| format!("{}", e))
+                .mod_name("gen_y");
+            if api_pf {
+                let mut b = b;
+                b.process_file(&yp2, &op2).map(|_| ()).map_err(|e| format!("{}", e))
+            } else {
+                b.grammar_path(&yp2)
+                    .output_path(&op2)
+                    .build()
+                    .map(|_| ())
+                    .map_err(|e| format!("{}", e))
+            }
         }));
         let generated = op.exists();
         std::fs::remove_file(&yp).ok();
@@ -77,7 +106,7 @@ fn main() {
         };
         let msg: String = msg.chars().take(120).collect();
         format!(
-            "CT {} sr={} rr={} expect={} expectrr={} conflicts={} generated={} msg={}",
+            "CT {} sr={} rr={} expect={} expectrr={} conflicts={} generated={} api={} wae={} eoc={} warn={} msg={}",
             verdict,
             sr,
             rr,
@@ -85,6 +114,10 @@ fn main() {
             exrr,
             some,
             if generated { 1 } else { 0 },
+            if api_pf { "pf" } else { "build" },
+            wae as u8,
+            eoc as u8,
+            nwarn,
             hex(&msg)
         )
     });
